@@ -289,6 +289,74 @@ func runC03(r *mon.Run) {
 		}
 	})
 
+	// --- operand SUMS steered into the carry windows of "multiply by a small constant":
+	// the complete formulas multiply sums of coordinates by b3 = 21 (and by 2, 3, 8);
+	// an implementation that does this by repeated doubling / limb scaling with a lazy
+	// reduction goes wrong only when k*(stored value) lies just below a multiple of 2^256.
+	// For affine operands the sum is x1 + x2 (and y1 + y2): choose P, then Q with
+	// x(Q) = target - x(P), where the STORED (Montgomery) form of target is
+	// floor(j*2^256/k) - eps.  Half of the candidates are on the curve; eps is searched.
+	r.Require("c03:small-multiple-window:x-sum")
+	r.Each("c03/small-multiple-window", r.N(400, 20000), func(w *mon.W, i int) {
+		rng := w.Rng
+		P := pool[1+rng.Intn(np-1)].P
+		if rng.Bool() || P.Inf {
+			P = oracle.MulG(rng.Below(bigN))
+		}
+		if P.Inf {
+			return
+		}
+		k := int64([]int{21, 21, 21, 3, 2, 4, 8, 9, 12, 24, 42, 63}[i%12])
+		j := int64(1 + rng.Intn(int(k)))
+		var Q *oracle.Pt
+		var eps int64
+		for try := 0; try < 64 && Q == nil; try++ {
+			eps = int64(rng.U64() % (1 << 34))
+			if try < 8 {
+				eps = int64(try)
+			}
+			raw := new(big.Int).Div(new(big.Int).Mul(big.NewInt(j), oracle.Two256), big.NewInt(k))
+			raw.Sub(raw, big.NewInt(eps))
+			raw.Mod(raw, oracle.Two256)
+			if raw.Cmp(bigP) >= 0 {
+				continue
+			}
+			target := oracle.FromMont(raw, bigP)
+			xq := oracle.SubM(target, P.X, bigP)
+			if cand := oracle.LiftX(xq, uint(rng.Intn(2))); cand != nil && !cand.Eq(P) && !cand.Eq(oracle.Neg(P)) {
+				Q = cand
+			}
+		}
+		if Q == nil {
+			return
+		}
+		w.Class("c03:small-multiple-window:x-sum")
+		w.Case(true, []byte("smw"), oracle.EncodeCompressed(P), oracle.EncodeCompressed(Q))
+		det := []any{"P", P, "Q", Q, "k", k, "j", j, "eps", eps}
+		one := big.NewInt(1)
+		lp, lq := pointRep(P, one), pointRep(Q, one)
+		for _, c := range []struct {
+			name string
+			got  *Point
+			want *oracle.Pt
+		}{
+			{"Add(P,Q)", new(Point).Add(lp, lq), oracle.Add(P, Q)},
+			{"Add(Q,P)", new(Point).Add(lq, lp), oracle.Add(P, Q)},
+			{"Subtract(P,-Q)", new(Point).Subtract(lp, pointRep(oracle.Neg(Q), one)), oracle.Add(P, Q)},
+			{"Double(P+Q)", new(Point).Double(new(Point).Add(lp, lq)), oracle.Dbl(oracle.Add(P, Q))},
+		} {
+			if msg := expectPoint(c.got, c.want); msg != "" {
+				w.Fail("c03/small-multiple-window/"+c.name, fmt.Sprintf("%s with the stored form of x(P)+x(Q) = floor(%d*2^256/%d) - %d: %s", c.name, j, k, eps, msg), det...)
+				return
+			}
+		}
+		if hk.HaveMul {
+			if msg := expectPoint(hk.AddMixedRaw(new(Point), lp, montLimbsP(Q.X), montLimbsP(Q.Y)), oracle.Add(P, Q)); msg != "" {
+				w.Fail("c03/small-multiple-window/addMixed", "addMixed: "+msg, det...)
+			}
+		}
+	})
+
 	unops := []string{"Double", "Negate", "CondNegate", "Set", "NewPointFrom", "doubleComplete", "observers"}
 	r.Require("c03:un:inf", "c03:un:odd-y", "c03:un:even-y")
 	r.Each("c03/unary", np*r.N(4, 24), func(w *mon.W, i int) {
